@@ -19,7 +19,9 @@ RULE = ('dumps: version-2 files from scenario programs of 1..3 threads (thread m
         'plain-loop model (thread map, superseded by new-thread, exec, terminate-pid and sampler records) just before '
         'or just after the triggering event, and an undeclared thread is never given a declared pid or name; '
         '(4) every column the listing prints with all switches on has a non-empty segment carrying the modelled '
-        'content (timestamp, code name, qualifier, tid, name(pid), argument bytes; log date). Non-trivial: the stream '
+        'content (timestamp, code name, qualifier, tid, name(pid), argument bytes; log date); (5) the same parser object '
+        'formatting a second, map-less dump reads as a fresh object. New-thread records may re-declare a logging thread and '
+        'lose their name record. Non-trivial: the stream '
         'changes the attribution of a thread that later emits a line, or a line belongs to an undeclared thread; '
         'distinct by (file, configs).')
 ASSUMPTIONS = ['A2: names and paths shown have no leading/trailing whitespace and no control characters',
